@@ -2,6 +2,7 @@ import JominiModel.Model.BinDe
 import JominiModel.Spec.BinDoc
 import JominiModel.Proofs.BinDeSeq
 import JominiModel.Proofs.BinDe
+import JominiModel.Proofs.BinDeFlat
 /-
 C04 — binary deserialization agrees across tape, on-demand and streaming paths.
 Helper lemmas: Proofs/BinDe.lean (dispatch), Proofs/BinDeSeq.lean (sequential readers).
@@ -86,11 +87,32 @@ example : Plain [.id 8192, .equal, .open, .i32 1, .i32 2, .close, .open, .close,
   intro t ht; simp at ht; rcases ht with rfl | rfl | rfl | rfl | rfl | rfl | rfl | rfl | rfl | rfl | rfl <;> simp [plainTok, RGB_ID]
 
 /-
-NOT PROVED (covered by the correspondence check and the implementation oracle only):
-  C04_tape_eq_ondemand : WellFormed d → Fits ty d → tapeOf d = some tp → deTape c ty tp = deOndemand c ty (tokensOf d)
+FULL STATEMENTS (not proved as a whole; covered by the correspondence check and the implementation
+oracle: `bde_spec` compares all three real paths with the Rust twin of `valueOfBin`; `bde_toks` /
+`bde_tapeof` tie `tokensOf` / `tapeOf` to the real Lexer / BinaryTape):
+  C04_tape_eq_ondemand : WellFormed d → Fits ty d → tapeOf d = some tp →
+                           deTape c ty tp = deOndemand c ty (tokensOf d)
   C04_eq_spec          : WellFormed d → Fits ty d → deStream c ty (tokensOf d) = valueOfBin c ty d
-(`bde_spec` compares all three real paths with the Rust twin of `valueOfBin`; `bde_toks` / `bde_tapeof`
-tie `tokensOf` / `tapeOf` to the real Lexer / BinaryTape.)
+Proved below: both, for FLAT documents (every field `key = leaf`, no ghost objects, no reserved
+lexeme) read as a map of any leaf-like value type — every resolver, strategy, key/value token kind,
+duplicate keys included.  Missing: nested containers (induction over `BNode` with the tape's index
+arithmetic and the fuel bound), struct requests (the slot bookkeeping is shared code, the loop
+differs), rgb values, ghost objects.
 -/
+theorem C04_tape_eq_ondemand_partial (c : Cfg) (vt : Ty) (hvt : LeafTy vt) (d : BDoc) (h : Flat d) :
+    tapeOf d = some (tapeFields d 0) ∧
+    deTape c (.plain (.map vt)) (tapeFields d 0) = deOndemand c (.plain (.map vt)) (tokensOf d) ∧
+    deTape c (.plain (.map vt)) (tapeFields d 0) = deStream c (.plain (.map vt)) (tokensOf d) := by
+  obtain ⟨h1, h2, h3⟩ := flat_map_all c vt hvt d h
+  exact ⟨Flat.tapeOf d h, by rw [h1, h2], by rw [h1, h3]⟩
+
+theorem C04_eq_spec_partial (c : Cfg) (vt : Ty) (hvt : LeafTy vt) (d : BDoc) (h : Flat d) :
+    deTape c (.plain (.map vt)) (tapeFields d 0) = valueOfBin c (.plain (.map vt)) d ∧
+    deOndemand c (.plain (.map vt)) (tokensOf d) = valueOfBin c (.plain (.map vt)) d ∧
+    deStream c (.plain (.map vt)) (tokensOf d) = valueOfBin c (.plain (.map vt)) d :=
+  flat_map_all c vt hvt d h
+
+example : Flat (.cons 0 (.id 8192) (.leaf (.i32 5)) (.cons 0 (.quoted [98]) (.leaf (.f32 [220, 5, 0, 0])) .nil)) := by
+  simp [Flat, BLeaf.tok, plainTok, RGB_ID]
 
 end Jomini.Props.C04
